@@ -1224,6 +1224,38 @@ def stream_targeted(ctx, fixed_cases=None, fixed_wf=None):
             fixed_cases.extend(res.coq_cases)
             fixed_wf.extend(res.wf_terms)
 
+    # (g) as_function: a constant input that is not a call input is copied into the function as a Constant node (default domain);
+    #     the only matched node is in a custom domain
+    def pat_g(op, x, c):
+        return op.CustomScale(x, c, _domain="custom")
+
+    def rep_g(op, x, c):
+        return op.Fused(x, _domain=G.DOM_FN)
+
+    def cond_g(context, x, c, **_):
+        return c.const_value is not None
+    key_g = "C07:as_function:copied-constant:function-lacks-default-domain-import"
+    ctx.case(("targeted", key_g))
+    gg = helper.make_graph([helper.make_node("CustomScale", ["x", "c"], ["o"], domain="custom")], "g", [vi("x")], [vi("o")],
+                           initializer=[numpy_helper.from_array(np.array([2.0], dtype=np.float32), "c")])
+    mg = helper.make_model(gg, opset_imports=[helper.make_opsetid("", 18), helper.make_opsetid("custom", 1)], ir_version=10)
+    try:
+        new_g = rewriter.rewrite(copy.deepcopy(mg), [orp.RewriteRule(pat_g, rep_g, cond_g, as_function=True)])
+        bad_g = [f"{f.name}:{f.overload}" for f in new_g.functions
+                 if not {n.domain for n in f.node} <= {o.domain for o in f.opset_import}]
+        try:
+            onnx.checker.check_model(new_g)
+            chk = None
+        except Exception as e:
+            chk = str(e)[:200]
+        if bad_g or chk:
+            ctx.violation(key_g, f"custom.CustomScale(x, c) with c an initializer, replaced by a call of an extracted function that takes x only: "
+                                 f"function(s) {bad_g} hold a Constant node but do not import the default domain; onnx.checker: {chk}",
+                          {"stream": "targeted", "case": "as_function-copied-constant", "model": mg.SerializeToString().hex()})
+    except Exception as e:
+        ctx.violation("C07:targeted:raises:as_function-copied-constant", f"rewrite() raised {type(e).__name__}: {str(e)[:200]}",
+                      {"stream": "targeted", "case": "as_function-copied-constant"})
+
     # (e) empty rule list: the model comes back untouched
     m = mk([helper.make_node("Neg", ["x"], ["o"])], ["x"], ["o"])
     if rewriter.rewrite(m, []) is not m:
